@@ -6,7 +6,7 @@ From ReqV Require Import Lib.Bytes Lib.BigEndian Model.QuicVarint Proofs.QuicVar
 From ReqV Require Import Model.H2Frame Proofs.H2FrameProofs Proofs.H2OrderProofs Proofs.H2ErrorProofs.
 From ReqV Require Import Model.H2Meta Proofs.H2MetaProofs.
 From ReqV Require Import Model.H3Frame Model.H3Spec Proofs.H3FrameProofs Proofs.H3FieldProofs.
-From ReqV Require Import Model.H3Writer Proofs.H3WriterProofs.
+From ReqV Require Import Model.H3Writer Proofs.H3WriterProofs Model.H2EncConn Proofs.H2EncConnProofs.
 From Coq Require Import Permutation.
 Open Scope N_scope.
 
@@ -205,6 +205,49 @@ Theorem C05_h2_meta_noreset_refuted :
 Proof. exact h2_meta_noreset_refuted. Qed.
 Print Assumptions C05_h2_meta_noreset_refuted.
 
+(* ---------- one connection's request header encoder over a sequence of exchanges ---------- *)
+
+(* ClientConn.encodeHeaders / encodeTrailers refuse a list larger than the peer's
+   SETTINGS_MAX_HEADER_LIST_SIZE in a first pass, before the connection's HPACK encoder is touched.
+   For ANY encoder / peer decoder pair that is in step and stays in step over a sent block (the one
+   hypothesis about the unforked hpack library), over EVERY sequence of exchanges: the peer decodes
+   every block that was sent to exactly the fields of its exchange - refused exchanges, wherever they
+   stand in the sequence, leave no trace *)
+Theorem C05_h2_conn_refusals_leave_no_trace :
+  forall (S D B : Type) (enc : S -> list hfield -> B * S) (dec : D -> B -> option (list hfield * D))
+         (insync : S -> D -> Prop),
+  (forall s d fs b s', insync s d -> enc s fs = (b, s') -> exists d', dec d b = Some (fs, d') /\ insync s' d') ->
+  forall limit xs s d, insync s d ->
+  conn_run S D B enc dec true limit s d xs = expected limit xs.
+Proof. exact conn_refusals_leave_no_trace. Qed.
+Print Assumptions C05_h2_conn_refusals_leave_no_trace.
+
+Theorem C05_h2_conn_refused_as_if_absent :
+  forall (S D B : Type) (enc : S -> list hfield -> B * S) (dec : D -> B -> option (list hfield * D))
+         (insync : S -> D -> Prop),
+  (forall s d fs b s', insync s d -> enc s fs = (b, s') -> exists d', dec d b = Some (fs, d') /\ insync s' d') ->
+  forall limit xs s d, insync s d ->
+  filter (fun o => match o with None => false | Some _ => true end) (conn_run S D B enc dec true limit s d xs) =
+  conn_run S D B enc dec true limit s d (filter (fun fs => negb (over_limit limit fs)) xs).
+Proof. exact conn_refused_as_if_absent. Qed.
+Print Assumptions C05_h2_conn_refused_as_if_absent.
+
+(* the hypothesis is satisfiable (a small indexed-table HPACK), and with that instance the one-pass
+   variant - encode while counting, drop the bytes on refusal - is refuted: after a refused trailer
+   block the next request decodes at the peer to another field *)
+Theorem C05_h2_conn_hypothesis_satisfiable : forall s d fs b s',
+  s = d -> toy_enc_toks s fs = (b, s') -> exists d', toy_dec_toks d b = Some (fs, d') /\ s' = d'.
+Proof. exact toy_hpack_in_step. Qed.
+Print Assumptions C05_h2_conn_hypothesis_satisfiable.
+
+Theorem C05_h2_conn_one_pass_refuted :
+  let a := (bs "x-a", bs "1") in let big := (bs "x-trailer", bs "0123456789") in
+  let xs := [[a]; [big; big]; [big]] in
+  conn_run _ _ _ toy_enc_toks toy_dec_toks true 60 [] [] xs = [Some (Some [a]); None; Some (Some [big])] /\
+  conn_run _ _ _ toy_enc_toks toy_dec_toks false 60 [] [] xs = [Some (Some [a]); None; Some (Some [a])].
+Proof. exact conn_one_pass_refuted. Qed.
+Print Assumptions C05_h2_conn_one_pass_refuted.
+
 (* ---------- HTTP/3 frames (RFC 9114 §7.1, §7.2.4; internal/http3/frames.go) ---------- *)
 
 (* dataFrame.Append / headersFrame.Append are read back by ParseNext: same type and length, payload
@@ -260,14 +303,12 @@ Theorem C05_h3_skipped_then_end : forall body input, skipped_frames input ->
 Proof. exact h3_skipped_then_end. Qed.
 Print Assumptions C05_h3_skipped_then_end.
 
-(* ... and on a body stream a clean io.EOF means exactly that (SETTINGS frames, which do not belong
-   there, report their own short payload as io.EOF): a cut inside a frame is never a clean end *)
-Theorem C05_h3_body_eof_inv : forall input r, h3_parse_next_b true input = (H3Err H3EOF, r) ->
-  skipped_frames input \/
-  exists sk et el l bd, skipped_frames sk /\ is_enc et h3FrameSettings /\ is_enc el l /\
-    input = sk ++ et ++ el ++ bd /\ fst (h3_parse_settings_frame bd l) = H3Err H3EOF.
-Proof. exact h3_body_eof_inv. Qed.
-Print Assumptions C05_h3_body_eof_inv.
+(* ... and on a body stream a clean io.EOF means exactly that: a stream cut inside a frame type, a
+   frame length, a skipped payload or (since /repo 1ee29a3) a SETTINGS frame is never a clean end *)
+Theorem C05_h3_body_eof_iff : forall input,
+  (exists r, h3_parse_next_b true input = (H3Err H3EOF, r)) <-> skipped_frames input.
+Proof. exact h3_body_eof_iff. Qed.
+Print Assumptions C05_h3_body_eof_iff.
 
 (* the flag changes nothing else: same frames and bytes left, same errors up to EOF / UnexpectedEOF
    (quic-go, which has no such flag, is the body = false column) *)
